@@ -20,7 +20,8 @@ func NewDistribution(params ring.DistributionParameters, logN int) (d Distributi
 		d.AbsBound = params.Bound
 	case ring.Ternary:
 		if params.P != 0 {
-			d.Std = math.Sqrt(1 - params.P)
+			// ring.Ternary: -1, 0, 1 with probabilities P/2, 1-P, P/2: the variance is P
+			d.Std = math.Sqrt(params.P)
 		} else {
 			d.Std = math.Sqrt(float64(params.H) / (math.Exp2(float64(logN)) - 1))
 		}
